@@ -152,10 +152,7 @@ Print Assumptions C02_source_random_inits_feasible.
 
 (* the whole list of initial positions built by the GENERATED Initializer (random, grid, vertices, warm start, random padding) is feasible,
    provided the two abstract sections (_init_grid_search, _init_vertices: pinned by digest) return feasible positions only *)
-Theorem C02_source_init_positions_feasible : forall sp cons names igs iv,
-  (forall s n s' l, igs s n = Ok (s', l) -> same_cfg s s' /\ (length l <= Z.to_nat n)%nat) ->
-  (forall s n s' l, iv s n = Ok (s', l) -> same_cfg s s' /\ (length l <= Z.to_nat n)%nat) ->
-  forall fuel self0 iz s',
+Theorem C02_source_init_positions_feasible : forall sp cons names igs iv fuel self0 iz s',
   (forall s n s1 l, igs s n = Ok (s1, l) -> Forall (fun p => not_in_constraint sp cons p = Ok true) l) ->
   (forall s n s1 l, iv s n = Ok (s1, l) -> Forall (fun p => not_in_constraint sp cons p = Ok true) l) ->
   g_Initializer_init sp cons names igs iv fuel self0 iz = Ok s' ->
